@@ -350,6 +350,7 @@ package cryptobyte
 //@ let asn = b.child.pendingIsASN1
 //@ let cerr = b.child.err
 //@ let k = derk(L)
+//@ let fits = !b.child.fixedSize || len(b.child.result) + derk(L) <= cap(b.child.result)
 //@ ensures b.child == nil
 //@ ensures implies(c == nil, b.err == old(b.err) && hdr(b.result, old(b.result)))
 //@ ensures implies(c != nil && cerr != nil, b.err == cerr && hdr(b.result, old(b.result)))
@@ -359,9 +360,9 @@ package cryptobyte
 //@ ensures implies(c != nil && cerr == nil && !asn && L < spec.pow2f(8*ll), forall(i, 0, off, b.result[i] == old(R[i])) && forall(i, off + ll, len(R), b.result[i] == old(R[i])))
 // ASN.1 (DER) length
 //@ ensures implies(c != nil && cerr == nil && asn && L > 4294967294, b.err != nil)
-//@ ensures implies(c != nil && cerr == nil && asn && L <= 4294967294 && b.err == old(b.err), len(b.result) == len(R) + k && b.result[off] == ite(k == 0, L, 128 + k) && implies(k > 0, be(b.result[off+1:], k) == L))
-//@ ensures implies(c != nil && cerr == nil && asn && L <= 4294967294 && b.err == old(b.err), forall(i, 0, off, b.result[i] == old(R[i])) && forall(i, 0, L, b.result[off + 1 + k + i] == old(R[off + 1 + i])))
-//@ ensures implies(c != nil && cerr == nil && asn && L <= 4294967294 && !c.fixedSize, b.err == old(b.err))
+//@ ensures implies(c != nil && cerr == nil && asn && L <= 4294967294 && fits, b.err == old(b.err) && len(b.result) == len(R) + k && b.result[off] == ite(k == 0, L, 128 + k) && implies(k > 0, be(b.result[off+1:], k) == L))
+//@ ensures implies(c != nil && cerr == nil && asn && L <= 4294967294 && fits, forall(i, 0, off, b.result[i] == old(R[i])) && forall(i, off + 1 + k, off + 1 + k + L, b.result[i] == old(R[i - k])))
+//@ ensures implies(c != nil && cerr == nil && asn && L <= 4294967294 && !fits, b.err != nil)
 //@ loop 1 invariant -1 <= i && i < child.pendingLenLen && 0 <= child.pendingLenLen && child.pendingLenLen <= 4 && length >= 0
 //@ loop 1 invariant l == length / spec.pow2f(8*(child.pendingLenLen - 1 - i))
 //@ loop 1 invariant forall(j, i+1, child.pendingLenLen, child.result[child.offset + j] == (length / spec.pow2f(8*(child.pendingLenLen - 1 - j))) % 256)
